@@ -53,6 +53,9 @@ func (fc *FnCtx) logs() []*FnLog { return activeLogs[fc] }
 
 func (fr *Frame) wr1(st *State, heap, row, val string) {
 	fc := fr.fc
+	if heap == hBV {
+		delete(fc.knownBig, row)
+	}
 	fc.logWrite(heap, row)
 	fc.setDef(st, "true", heap, sStore(fc.get(st, heap), row, val))
 }
@@ -88,6 +91,10 @@ func (fr *Frame) flushClosed(st *State) {
 	fc := fr.fc
 	a := fc.get(st, hAlloc)
 	for _, p := range fc.pendingClosed {
+		if fc.heapAlloc == nil {
+			fc.heapAlloc = map[string]string{}
+		}
+		fc.heapAlloc[p[0]] = a
 		if cf := fc.closedFact(p[0], p[1], a); cf != "true" {
 			fc.facts = append(fc.facts, Fact{Guard: "true", Term: cf, Class: "closed"})
 		}
@@ -231,7 +238,7 @@ func (fr *Frame) loadLoc(st *State, l *Loc) Val {
 	case LField:
 		return Val{S: fc.rd(st, l.Heap, l.Base), Typ: l.Elem}
 	case LElem:
-		return Val{S: sSel(fc.rd(st, l.Heap, l.Base), l.Idx), Typ: l.Elem}
+		return Val{S: fc.rd2(st, l.Heap, l.Base, l.Idx), Typ: l.Elem}
 	case LGlobal:
 		return Val{S: fc.get(st, l.Heap), Typ: l.Elem}
 	case LElemObj:
@@ -494,6 +501,7 @@ func (fr *Frame) mergeStates(preds []*ssa.BasicBlock, to *ssa.BasicBlock) *State
 		}
 	}
 	out := &State{vars: map[string]string{}}
+	var merged []string
 	for k := range keys {
 		var terms []string
 		same := true
@@ -519,6 +527,16 @@ func (fr *Frame) mergeStates(preds []*ssa.BasicBlock, to *ssa.BasicBlock) *State
 		}
 		fc.parents[c] = append(fc.parents[c], terms...)
 		out.vars[k] = c
+		merged = append(merged, c)
+	}
+	if len(merged) > 0 {
+		if fc.heapAlloc == nil {
+			fc.heapAlloc = map[string]string{}
+		}
+		a := fc.get(out, hAlloc)
+		for _, c := range merged {
+			fc.heapAlloc[c] = a
+		}
 	}
 	return out
 }
@@ -1154,7 +1172,7 @@ func (fr *Frame) binop(b *ssa.BasicBlock, op token.Token, x, y Val, t types.Type
 	case token.SUB:
 		return Val{S: wrapTerm(t, sApp("-", a, c)), Typ: t}
 	case token.MUL:
-		return Val{S: wrapTerm(t, sApp("*", a, c)), Typ: t}
+		return Val{S: wrapTerm(t, fr.mulTerm(a, c)), Typ: t}
 	case token.QUO:
 		fr.ob("div", fr.src(pos, "quo"), b, sNot(sEq(c, "0")), pos)
 		return Val{S: wrapTerm(t, sApp("tdiv", a, c)), Typ: t}
@@ -1500,7 +1518,7 @@ func (fr *Frame) mapPresent(st *State, mt types.Type, m, k string) string {
 func (fr *Frame) mapValue(st *State, mt types.Type, m, k string) string {
 	fr.regMap(mt)
 	el := mt.Underlying().(*types.Map).Elem()
-	return sIte(fr.mapPresent(st, mt, m, k), sSel(fr.fc.rd(st, heapMapV(mt), m), k), zeroTerm(el))
+	return sIte(fr.mapPresent(st, mt, m, k), fr.fc.rd2(st, heapMapV(mt), m, k), zeroTerm(el))
 }
 
 func (fr *Frame) execLookup(b *ssa.BasicBlock, st *State, x *ssa.Lookup) {
@@ -1513,6 +1531,7 @@ func (fr *Frame) execLookup(b *ssa.BasicBlock, st *State, x *ssa.Lookup) {
 	}
 	m := fr.scalar(fr.val(x.X))
 	k := fr.scalar(fr.val(x.Index))
+	fc.addCand(k)
 	el := mt.Underlying().(*types.Map).Elem()
 	v := Val{S: fr.mapValue(st, mt, m, k), Typ: el}
 	// name the value to keep terms small
@@ -1556,6 +1575,7 @@ func (fr *Frame) execNext(b *ssa.BasicBlock, st *State, x *ssa.Next) {
 	fr.assume(b, sImp(ok, sAnd(present(k), sNot(sSel(seen, k)))))
 	fr.assume(b, sImp(sNot(ok), fmt.Sprintf("(forall ((kk Int)) (! (=> %s (select %s kk)) :pattern ((select %s kk))))", present("kk"), seen, seen)))
 	kv := Val{S: k, Typ: mp.Key()}
+	fc.addCand(k)
 	fr.assume(b, sImp(ok, fr.typeFacts(kv, st)))
 	vv := Val{S: fr.mapValueRaw(st, mt, m, k), Typ: mp.Elem()}
 	c := fc.freshConst("next_v", sortOf(mp.Elem()))
@@ -1568,7 +1588,7 @@ func (fr *Frame) execNext(b *ssa.BasicBlock, st *State, x *ssa.Next) {
 }
 
 func (fr *Frame) mapValueRaw(st *State, mt types.Type, m, k string) string {
-	return sSel(fr.fc.rd(st, heapMapV(mt), m), k)
+	return fr.fc.rd2(st, heapMapV(mt), m, k)
 }
 
 func (fr *Frame) execSelect(b *ssa.BasicBlock, st *State, x *ssa.Select) {
